@@ -550,6 +550,35 @@ class Sim:
                 self.count("type-changing assignment to a Var whose container is shared")
             self.write(loc, v)
             return "ok"
+        if op in ("seta", "setd"):
+            # p = Array<T> / p = Dic<T>: the target is REBOUND to a fresh container; Vars sharing the old one keep it
+            p = parse_path(t[1])
+            kind = t[2]
+            if op == "seta":
+                vals = []
+                for x in t[3:]:
+                    if kind == "i":
+                        vals.append(("i", int(x)))
+                    elif kind == "s":
+                        vals.append(("s", unhex(x)))
+                    else:
+                        m, e = x.split(":")
+                        vals.append(("d",) + norm_dy(int(m), int(e)))
+                nv = Arr(len(vals))
+                nv.items = vals
+                nv.cap = 3 if len(vals) <= 3 else max(6, len(vals))
+            else:
+                nv = Obj()
+                for x in t[3:]:
+                    key, val = x.split("=")
+                    nv.items[unhex(key)] = ("i", int(val)) if kind == "i" else ("s", unhex(val))
+                nv.cap = 3 if len(nv.items) <= 3 else max(6, len(nv.items))
+            loc = self.resolve_mut(p, guard)
+            old = self.read(loc)
+            if is_cont(old) and self.rc(old) > 1:
+                self.count("container assignment (Array<T>/Dic<T>) to a Var whose container is shared")
+            self.write(loc, nv)
+            return "ok"
         if op == "setsub":
             p = parse_path(t[1])
             off = int(t[2])
@@ -1606,6 +1635,60 @@ def accessor_table_cases(rng, tier):
     return cases
 
 
+def shared_container_assign_cases(rng, tier):
+    """p = Array<T> / p = Dic<T> (the templated container assignments) and p = "text" on a Var whose ARRAY/OBJ is SHARED: the container
+    is first copied into a second root, stored inside another container, or reached as obj["k"]; then the Var is assigned a container
+    value (shorter, equal, longer than the block's capacity) and BOTH handles are read.  Assignment must rebind the target only."""
+    cases = []
+    reps = 30 if tier == "quick" else 400
+    for _ in range(reps):
+        c = ["reset"]
+        n0 = rng.choice([0, 1, 2, 3, 4, 7])
+        if rng.random() < 0.6:
+            c += ["set 0 t ARRAY"] + ["appl 0 %s" % rng.choice(["i %d" % rng.choice(INTS), "s %s" % hexs(rstring(rng)), "b 1", "d 7 1"]) for _ in range(n0)]
+        else:
+            c += ["set 0 t OBJ"] + ["set 0/k%s i %d" % (hexs(rng.choice(KEYS)), rng.choice(INTS)) for _ in range(n0)]
+        # share it
+        share = rng.choice(["copy", "elem", "prop", "both"])
+        if share in ("copy", "both"):
+            c += ["copy 1 0"]
+        if share in ("elem", "both"):
+            c += ["appl 2 i 1", "app 2 0"]
+        if share == "prop":
+            c += ["set 3/k%s i 1" % hexs(b"a"), "setv 3/k%s 0" % hexs(b"list")]
+        c += ["dumpall", "rc 0"]
+        # the target: the root itself, or the same container reached through the holder
+        tgt = "0"
+        if share == "prop" and rng.random() < 0.5:
+            tgt = "3/k%s" % hexs(b"list")
+        elif share in ("elem", "both") and rng.random() < 0.3:
+            tgt = "2/i1"
+        m = rng.choice([0, 1, 2, 3, 4, 5, 8])
+        kind = rng.choice(["ai", "as", "ad", "di", "ds", "s", "c", "t"])
+        if kind == "ai":
+            c += [("seta %s i " % tgt + " ".join(str(rng.choice(INTS)) for _ in range(m))).rstrip()]
+        elif kind == "as":
+            c += [("seta %s s " % tgt + " ".join(hexs(rstring(rng)) for _ in range(m))).rstrip()]
+        elif kind == "ad":
+            c += [("seta %s d " % tgt + " ".join("%d:%d" % (rng.randint(-50, 50), rng.randint(0, 3)) for _ in range(m))).rstrip()]
+        elif kind == "di":
+            c += [("setd %s i " % tgt + " ".join("%s=%d" % (hexs(rng.choice(KEYS)), rng.choice(INTS)) for _ in range(m))).rstrip()]
+        elif kind == "ds":
+            c += [("setd %s s " % tgt + " ".join("%s=%s" % (hexs(rng.choice(KEYS)), hexs(rstring(rng))) for _ in range(m))).rstrip()]
+        elif kind == "t":
+            c += ["set %s t %s" % (tgt, rng.choice(["ARRAY", "OBJ"]))]
+        else:
+            c += ["set %s %s %s" % (tgt, kind, hexs(rstring(rng)))]
+        c += ["dump 0", "dump 1", "dump 2", "dump 3", "rc 0", "rc 1", "len 1", "dumpall"]
+        # a second assignment over the fresh value, then mutate the target and read the old holders again
+        c += [("seta %s i " % tgt + " ".join(str(j) for j in range(rng.choice([0, 2, 5])))).rstrip(), "appl %s i 9" % tgt, "dumpall",
+              "drop 0", "dumpall", "drop 1", "drop 2", "drop 3", "dumpall"]
+        cases.append(c)
+    # malformed lines: both sides must answer bad-op
+    cases.append(["reset", "seta 0 x 1", "seta 9 i 1", "setd 0 d 61=1", "setd 0 i 61", "seta 0 i", "dump 0", "setd 0 i", "dump 0", "seta 0/k61 s", "dumpall"])
+    return cases
+
+
 def gen(rng, tier):
     cases = []
     cases += lit_cases(rng, tier)
@@ -1616,6 +1699,7 @@ def gen(rng, tier):
     cases += growth_cases(rng, tier)
     cases += deep_cases(rng)
     cases += accessor_table_cases(rng, tier)
+    cases += shared_container_assign_cases(rng, tier)
     nh = 2500 if tier == "quick" else 40000
     for i in range(nh):
         cases.append(history(rng, rng.choice([12, 25, 40, 60, 90]) if i % 50 else 300))
@@ -1625,7 +1709,7 @@ def gen(rng, tier):
 
 def nontrivial(case):
     ops = [l.split()[0].lstrip("!") for l in case]
-    return len(case) >= 5 and any(o in ("setv", "setsub", "setcs", "setkey", "app", "ext", "clone", "copy", "set", "appl", "ctor") for o in ops) and \
+    return len(case) >= 5 and any(o in ("setv", "setsub", "setcs", "setkey", "app", "ext", "clone", "copy", "set", "appl", "ctor", "seta", "setd") for o in ops) and \
         any(o in ("dump", "dumpall", "eq", "tostr", "conv") for o in ops)
 
 
@@ -1645,8 +1729,8 @@ def distribution(cases):
             t = l.split()
             op = t[0]
             ops[op] = ops.get(op, 0) + 1
-            container_ctor = op == "ctor" and len(t) > 2 and t[2] in ("arr", "list", "dic", "varr")
-            if container_ctor:
+            container_ctor = (op == "ctor" and len(t) > 2 and t[2] in ("arr", "list", "dic", "varr")) or op in ("seta", "setd")
+            if container_ctor and op == "ctor":
                 ck = "ctor " + t[2]
                 ops[ck] = ops.get(ck, 0) + 1
             for i, x in enumerate(t):
@@ -1668,7 +1752,7 @@ def distribution(cases):
                 r = sim.apply(l)
             except Exception:
                 r = "sim-error"
-            if op in ("set", "setv", "setsub", "setcs", "setkey", "app", "appl", "resize", "remat", "rem", "clear", "ext", "clone", "copy", "drop", "ctor"):
+            if op in ("set", "seta", "setd", "setv", "setsub", "setcs", "setkey", "app", "appl", "resize", "remat", "rem", "clear", "ext", "clone", "copy", "drop", "ctor"):
                 outcomes[r] = outcomes.get(r, 0) + 1
         for k, v in sim.stats.items():
             stats[k] = stats.get(k, 0) + v
